@@ -406,8 +406,11 @@ fn signature(cfg: &FsCfg, hist: &[Op], clause: &str, obs: &str) -> (String, Vec<
             }
         }
         if let Op::RemoveFile(f) = o {
-            if cur[i + 1..].iter().any(|x| creator(x) && x.paths().first() == Some(&FILES[*f as usize])) {
-                return (format!("fs-name-reuse:file-remove-then-recreate|{obs}"), cur);
+            if let Some(x) = cur[i + 1..].iter().find(|x| creator(x) && x.paths().first() == Some(&FILES[*f as usize])) {
+                // a re-creation that truncates starts from an empty file whatever the log
+                // still holds for the name: that variant is not part of the listed family
+                let trunc = if matches!(x, Op::OpenTrunc(_)) { ":recreated-with-truncate" } else { "" };
+                return (format!("fs-name-reuse:file-remove-then-recreate{trunc}|{obs}"), cur);
             }
         }
     }
@@ -552,7 +555,7 @@ impl System for FsSys {
                     }
                     let obs = v.sig.split('|').next().unwrap_or("").to_string();
                     let (sig, _) = signature(&self.cfg, &self.hist, &v.clause, &obs);
-                    if sig.starts_with("fs-name-reuse:") {
+                    if sig.starts_with("fs-name-reuse:") && !sig.contains(":recreated-with-truncate") {
                         self.terminal = true;
                         self.skipped = true;
                     } else {
